@@ -22,7 +22,7 @@ ASSUMPTIONS = [
     "depth: see coverage.bounds / counters max_depth_completed; a deadline cap is reported as exhaustive=false",
 ]
 BOUNDS = {
-    "quick": dict(D=[2], rcap=4, full_alphabet_depth=2, reduced_alphabet_depth=3, vi=[0, 100]),
+    "quick": dict(D=[2], rcap=4, full_alphabet_depth=2, reduced_alphabet_depth=3, vi=[0, 100], D_shallow=[1, 3], shallow_depth=1),
     "thorough": dict(D=[1, 2, 3], rcap=6, full_alphabet_depth=3, reduced_alphabet_depth=6, vi=[0, 1, 100]),
 }
 BUDGET = {"quick": 900, "thorough": 7200}
@@ -40,6 +40,9 @@ def shards(tier, seed, prop="C04"):
                 out.append(dict(id="%s/D%d/%s/full/v%d" % (prop, D, spec["label"], vi), D=D, spec=spec, level="full", depth=B["full_alphabet_depth"], vi=vi, cost=5, facts=dict(D=D, **{k: v for k, v in spec.items() if k != "label"})))
             if spec["t"] == "measure":
                 out.append(dict(id="%s/D%d/%s/reduced/v%d" % (prop, D, spec["label"], B["vi"][0]), D=D, spec=spec, level="reduced", depth=B["reduced_alphabet_depth"], vi=B["vi"][0], cost=20, facts=dict(D=D, **{k: v for k, v in spec.items() if k != "label"})))
+    for D in B.get("D_shallow", []):
+        for spec in _graph.root_specs(D, tier):
+            out.append(dict(id="%s/D%d/%s/full/v%d" % (prop, D, spec["label"], B["vi"][0]), D=D, spec=spec, level="full", depth=B["shallow_depth"], vi=B["vi"][0], cost=2, facts=dict(D=D, **{k: v for k, v in spec.items() if k != "label"})))
     return out
 
 
